@@ -2,6 +2,7 @@
   C19, whole histories — in every reachable state the targets Foca picks are never its own address.
 -/
 import FocaModel.Proofs.OwnInv
+import FocaModel.Proofs.SendInv
 import FocaModel.Props.C19
 import FocaModel.Props.C08H
 namespace Foca.C19H
@@ -46,6 +47,93 @@ theorem no_reply_to_own_address (E : Env) (data : Bytes) (c : Ctx) (h : Header) 
   unfold handleData
   have h1 : ¬ data.length > c.s.cfg.mps := by omega
   simp [h1, hd, hsrc]
+
+/-- the destinations the input of a call names itself: the destination of an explicit `announce`, the target a
+    relayed message (`PingReq`, `IndirectAck`) asks to reach, the member a suspicion timer is about — the only
+    destinations Foca does not choose -/
+def namedByInput (E : Env) (op : Op) (d : Id) : Prop :=
+  match op with
+  | .announce d' => d = d'
+  | .timer (.s2d m _ _) => d = m
+  | .data b => ∃ h rest, E.codec.decHeader b = some (h, rest) ∧ relayTarget h.msg = some d
+  | _ => False
+
+/-- One public call — any input, datagram bytes, timer event, RNG draws — from a state where no active record and
+    no probe target bears the own address, `change_identity` used as documented: afterwards that still holds, and
+    **every datagram the call sent went to another address** than the instance's (the one it has after the call;
+    it only changes in `change_identity`), relays and input-named destinations excepted; every suspicion timer the
+    call scheduled names a member of another address. -/
+theorem datagrams_avoid_own_address_step (E : Env) (s : State) (op : Op) (orc : Oracle) (h : OwnInv s)
+    (hop : ChidOk s op) :
+    match Foca.step E s op orc with
+    | .done s' eff _ _ => OwnInv s' ∧ ∀ e ∈ eff, effOk s'.id.addr (namedByInput E op) e
+    | .stuck _ => True := by
+  by_cases hother : ∃ i p, op = .changeIdentity i p ∧ i.addr ≠ s.id.addr
+  · obtain ⟨i, p, hopeq, hne⟩ := hother
+    subst hopeq
+    have hJ : ∀ m ∈ s.ms, m.id.addr = i.addr → m.active = false := by
+      rcases hop i p rfl with h1 | h1
+      · exact absurd h1 hne
+      · exact h1
+    have := SendInv.changeIdentity_other (E := E) (ex := namedByInput E (.changeIdentity i p)) i p ⟨s, [], orc⟩ hJ
+      (by intro e he; simp at he)
+    unfold PostOr at this
+    unfold Foca.step Foca.runOp
+    simp only [bind_run]
+    cases hr : Foca.changeIdentity E i p ⟨s, [], orc⟩ with
+    | stuck x => trivial
+    | err e c' =>
+      rw [hr] at this
+      simp only
+      rcases this with h1 | h1
+      · exact ⟨⟨h1.1.1 ▸ rfl, h1.1.1 ▸ h1.1.2.1, h1.1.1 ▸ h1.1.2.2⟩, h1.1.1 ▸ h1.2⟩
+      · simp only at h1; rw [h1.1, h1.2]; exact ⟨h, by intro e he; simp at he⟩
+    | ok u c' =>
+      rw [hr] at this
+      simp only [pure_run]
+      rcases this with h1 | h1
+      · exact ⟨⟨h1.1.1 ▸ rfl, h1.1.1 ▸ h1.1.2.1, h1.1.1 ▸ h1.1.2.2⟩, h1.1.1 ▸ h1.2⟩
+      · simp only at h1; rw [h1.1, h1.2]; exact ⟨h, by intro e he; simp at he⟩
+  · have hrun := (SendInv.runOp (E := E) (a := s.id.addr) (ex := namedByInput E op) op
+      (fun i p hi => by
+        cases hq : decide (i.addr = s.id.addr) with
+        | true => exact of_decide_eq_true hq
+        | false => exact absurd ⟨i, p, hi, of_decide_eq_false hq⟩ hother)
+      (fun m inc tok hm => by subst hm; rfl)
+      (fun data hd => by subst hd; intro hh rest hdec t ht; exact ⟨hh, rest, hdec, ht⟩)
+      (fun d hd => by subst hd; rfl)).run ⟨s, [], orc⟩ ⟨h, by intro e he; simp at he⟩
+    unfold Foca.step
+    cases hr : Foca.runOp E op ⟨s, [], orc⟩ with
+    | stuck x => trivial
+    | ok r c =>
+      rw [hr] at hrun
+      exact ⟨⟨hrun.1.1 ▸ rfl, hrun.1.1 ▸ hrun.1.2.1, hrun.1.1 ▸ hrun.1.2.2⟩, hrun.1.1 ▸ hrun.2⟩
+    | err e c =>
+      rw [hr] at hrun
+      exact ⟨⟨hrun.1.1 ▸ rfl, hrun.1.1 ▸ hrun.1.2.1, hrun.1.1 ▸ hrun.1.2.2⟩, hrun.1.1 ▸ hrun.2⟩
+
+/-- **Whole histories.** After any history of public calls (`change_identity` used as documented) — whatever
+    records of older or newer identities of its own address the instance has learned, whichever periodic tasks are
+    configured — every datagram of every further call goes to an address other than the instance's own, unless
+    the call's input named that destination itself (relay target, explicit announce, the member of a suspicion
+    timer). Probes, indirect-probe requests, gossip, broadcasts, periodic announces (also those to Down members),
+    feeds and direct replies are all covered: they are all the sends there are. -/
+theorem datagrams_avoid_own_address (E : Env) {s s' : State} (hreach : ReachableDoc E s) (op : Op) (orc : Oracle)
+    (hop : ChidOk s op) (eff : List Effect) (r : Res) (left : Oracle)
+    (hstep : Foca.step E s op orc = .done s' eff r left) (d : Id) (b : Bytes) (hsend : Effect.send d b ∈ eff) :
+    d.addr ≠ s'.id.addr ∨ namedByInput E op d := by
+  have := datagrams_avoid_own_address_step E s op orc (OwnInv.reachable hreach) hop
+  rw [hstep] at this
+  exact this.2 _ hsend
+
+/-- … and a suspicion timer is only ever scheduled for a member of another address -/
+theorem suspicion_timers_name_other_addresses (E : Env) {s s' : State} (hreach : ReachableDoc E s) (op : Op)
+    (orc : Oracle) (hop : ChidOk s op) (eff : List Effect) (r : Res) (left : Oracle)
+    (hstep : Foca.step E s op orc = .done s' eff r left) (after : Nat) (m : Id) (inc tok : Nat)
+    (ht : Effect.timer after (.s2d m inc tok) ∈ eff) : m.addr ≠ s'.id.addr := by
+  have := datagrams_avoid_own_address_step E s op orc (OwnInv.reachable hreach) hop
+  rw [hstep] at this
+  exact this.2 _ ht
 
 /-- non-vacuity: a documented history with an own-address record listed (stored as Down) and another member -/
 example : ∃ s, ReachableDoc C08H.exEnv s ∧ s.ms.length = 2 := by
